@@ -1,12 +1,914 @@
-// Package c16 decides C16 (see /verif/DESIGN.md §7).
+// Package c16 decides C16: for the node, a DA layer reached through the JSON-RPC client and server is
+// indistinguishable from the same DA layer called directly (see /verif/DESIGN.md §7).
+//
+// Observation point: the coreda.ResultSubmit / coreda.ResultRetrieve that the node's own helpers
+// (types.SubmitWithHelpers, types.RetrieveWithHelpers) produce. Every case is a call sequence that is made
+// twice, call by call: on a scriptable DA layer ("backing") called directly, and on a second, identical
+// backing that sits behind the real jsonrpc.NewServer and is reached through the real jsonrpc.NewClient
+// on 127.0.0.1. The oracle compares the two results of every call, compares what the two backings hold
+// at the end, and checks the size-limit clause against what the backing behind the proxy really
+// received and stored.
+//
+// # Reading of the statement (what is demanded, and what is not)
+//
+//   - "the same ids and blobs come back", "classified identically": Code, SubmittedCount, IDs, Height and
+//     Data of the two results must be equal. Message texts need not be equal, but block.Manager decides
+//     "height from the future" by looking for the sentinel's text in the message (block/retriever.go:92),
+//     so the truth value of that substring test must be equal too. Timestamps are not named by the
+//     statement; their agreement is only counted.
+//   - Errors: the quantifier is "every error the DA interface defines" (the eight sentinels of
+//     core/da/errors.go) plus cancellation (context.Canceled, context.DeadlineExceeded, also while the call
+//     is blocked inside the DA layer). Each is produced plain and wrapped with fmt.Errorf("...: %w").
+//     "Indistinguishable" also means that an error that is none of these stays the generic error on both
+//     paths, so unrelated errors whose text merely contains a sentinel's text are part of the clean region
+//     (e.g. context.DeadlineExceeded = "context deadline exceeded" against the sentinel "context
+//     deadline"). The only exception: an unrelated error whose text EQUALS a sentinel's text cannot be told
+//     apart by any transport that carries text; its status code is recorded, not judged (Op.NoJudgeCode).
+//   - A DA layer that returns ids together with an error is outside the DA interface's contract (and
+//     JSON-RPC carries either a result or an error); the backing never does that.
+//   - The size filter lives in the client; the direct path has none. "The same DA layer called directly"
+//     is therefore read as follows. Let L be the client's limit (API.MaxBlobSize: NewClient sets the
+//     package default, the harness overrides the exported field for small limits exactly as the
+//     repository's tests do), B the blobs, k the largest number such that the first k blobs together are
+//     <= L (computed here, independently).
+//     (a) Backing with the same limit L and the policy of core/da.DummyDA (the repository's in-process
+//     DA: an individual blob > L among those looked at => ErrBlobSizeOverLimit, otherwise the longest
+//     fitting prefix is stored): the direct path is given all of B and the two results must be equal.
+//     (b) Backing with no limit (like da/cmd/local-da) or a smaller one: a direct call with all of B
+//     would legitimately store more than the client sends, so the direct path is given B[:k], i.e.
+//     exactly the call the statement says the client makes, and the two results must be equal.
+//     (c) Separately, on the proxied side alone: the backing received exactly B[:k] (prefix clause; if
+//     the first blob that does not fit is by itself > L, "blob too big" with nothing sent is accepted as
+//     well, and is the only accepted answer when k = 0); SubmittedCount never exceeds, and on success
+//     equals, the number of blobs the backing stored in this call; the ids are the ids the backing
+//     handed out; what it stored are the first SubmittedCount blobs of B.
+//   - A call in which the client must refuse a blob (above its limit) is never combined with a scripted DA
+//     failure or a dead context: which of two causes wins is not fixed by the statement.
+//   - An empty list is only ever scripted to succeed: the client answers it without a round trip, which
+//     the statement does not forbid.
+//   - Namespaces: the client replaces the caller's namespace by the one it was configured with. The
+//     backing keeps blobs per namespace like a real DA layer; the caller's namespace is the same
+//     ("placeholder", what SubmitWithHelpers passes) for submission and retrieval on both paths, so any
+//     implementation that treats the namespace consistently across methods is accepted; which namespace
+//     arrives is not checked, only what comes back.
 package c16
 
-import "verifharness/vk"
+import (
+	"bytes"
+	"context"
+	"encoding/json"
+	"errors"
+	"fmt"
+	"math"
+	"math/rand"
+	"os"
+	"sort"
+	"strings"
+	"sync"
+
+	logging "github.com/ipfs/go-log/v2"
+
+	coreda "github.com/evstack/ev-node/core/da"
+	"github.com/evstack/ev-node/types"
+
+	"verifharness/vk"
+	"verifharness/world"
+)
 
 // Level is the verification level claimed for this property.
-const Level = "exploration"
+const Level = "fault_enumeration"
+
+const (
+	findingIdentity = "C16-error-identity"
+	findingCanceled = "C16-canceled-overmatch"
+)
+
+// identityCodes: the five classes that need the identity of the sentinel (errors.Is in SubmitWithHelpers).
+var identitySentinels = []error{coreda.ErrTxTimedOut, coreda.ErrTxAlreadyInMempool, coreda.ErrBlobSizeOverLimit,
+	coreda.ErrTxIncorrectAccountSequence, coreda.ErrContextDeadline}
+
+var identityCodes = map[coreda.StatusCode]bool{coreda.StatusNotIncludedInBlock: true, coreda.StatusAlreadyInMempool: true,
+	coreda.StatusTooBig: true, coreda.StatusIncorrectAccountSequence: true, coreda.StatusContextDeadline: true}
+
+// errTrigger says in which trigger region an error returned by the backing to SubmitWithOptions lies.
+//
+//	T1 (C16-error-identity):     the error is or wraps one of the five sentinels SubmitWithHelpers tells apart by identity.
+//	T2 (C16-canceled-overmatch): the text contains "context canceled" but the error is not context.Canceled
+//	                             (this includes the interface's own sentinel ErrContextCanceled).
+func errTrigger(e error) string {
+	if e == nil {
+		return ""
+	}
+	for _, s := range identitySentinels {
+		if errors.Is(e, s) {
+			return "T1"
+		}
+	}
+	if strings.Contains(e.Error(), context.Canceled.Error()) && !errors.Is(e, context.Canceled) {
+		return "T2"
+	}
+	return ""
+}
+
+func specTrigger(sp ErrSpec) string { return errTrigger(sp.build()) }
+
+// Obs is the compared part of a helper result.
+type Obs struct {
+	Code    uint64   `json:"code"`
+	Count   uint64   `json:"submitted_count"`
+	Height  uint64   `json:"height"`
+	IDs     []string `json:"ids"`
+	Data    []string `json:"data,omitempty"`
+	Message string   `json:"message"`
+	Future  bool     `json:"manager_reads_from_future"`
+	ids     [][]byte
+	data    [][]byte
+	tsUnix  int64
+}
+
+func short(list [][]byte) []string {
+	out := make([]string, 0, len(list))
+	for i, b := range list {
+		if i == 8 {
+			out = append(out, fmt.Sprintf("… (%d in all)", len(list)))
+			break
+		}
+		out = append(out, vk.HexShort(b))
+	}
+	return out
+}
+
+// managerReadsFuture is block.Manager's test (retriever.go:92 on the error built from the message at
+// retriever.go:233/236).
+func managerReadsFuture(code coreda.StatusCode, msg string) bool {
+	switch code {
+	case coreda.StatusHeightFromFuture:
+		return true
+	case coreda.StatusError:
+		return strings.Contains(msg, coreda.ErrHeightFromFuture.Error())
+	}
+	return false
+}
+
+func obsSubmit(r coreda.ResultSubmit) Obs {
+	return Obs{Code: uint64(r.Code), Count: r.SubmittedCount, Height: r.Height, IDs: short(r.IDs), Message: r.Message, ids: r.IDs}
+}
+
+func obsRetrieve(r coreda.ResultRetrieve) Obs {
+	return Obs{Code: uint64(r.Code), Count: r.SubmittedCount, Height: r.Height, IDs: short(r.IDs), Data: short(r.Data), Message: r.Message,
+		Future: managerReadsFuture(r.Code, r.Message), ids: r.IDs, data: r.Data, tsUnix: r.Timestamp.Unix()}
+}
+
+func sameList(a, b [][]byte) bool {
+	if len(a) != len(b) {
+		return false
+	}
+	for i := range a {
+		if !bytes.Equal(a[i], b[i]) {
+			return false
+		}
+	}
+	return true
+}
+
+// diff lists the compared fields in which two observations differ.
+func diff(d, p Obs) []string {
+	var out []string
+	if d.Code != p.Code {
+		out = append(out, "Code")
+	}
+	if d.Count != p.Count {
+		out = append(out, "SubmittedCount")
+	}
+	if d.Height != p.Height {
+		out = append(out, "Height")
+	}
+	if !sameList(d.ids, p.ids) {
+		out = append(out, "IDs")
+	}
+	if !sameList(d.data, p.data) {
+		out = append(out, "Data")
+	}
+	if d.Future != p.Future {
+		out = append(out, "from-the-future-substring")
+	}
+	return out
+}
+
+// refPrefix is the reference for the size clause: k = the largest number of leading blobs whose total
+// size is within the limit; tooBig = the first blob that does not fit is by itself above the limit.
+func refPrefix(sizes []int, limit uint64) (k int, tooBig bool) {
+	var sum uint64
+	for i, s := range sizes {
+		if sum+uint64(s) > limit {
+			return i, uint64(s) > limit
+		}
+		sum += uint64(s)
+	}
+	return len(sizes), false
+}
+
+func mkBlobs(seed int64, opIdx int, sizes []int) [][]byte {
+	rng := rand.New(rand.NewSource(seed + int64(opIdx)*7919))
+	out := make([][]byte, len(sizes))
+	for i, s := range sizes {
+		b := make([]byte, s)
+		rng.Read(b)
+		out[i] = b
+	}
+	return out
+}
+
+type tableRow struct {
+	Call     string `json:"call"`
+	Error    string `json:"error"`
+	Direct   uint64 `json:"direct_code"`
+	Proxied  uint64 `json:"proxied_code"`
+	Judged   bool   `json:"judged"`
+	Region   string `json:"region"`
+	sortKey  string
+	Agreeing bool `json:"agree"`
+}
+
+type runner struct {
+	r      *vk.Run
+	logger logging.EventLogger
+
+	mu       sync.Mutex
+	table    map[string]tableRow
+	reported map[string]bool
+	tsEqual  int64
+	tsDiff   int64
+}
+
+// caseRun is the state of one case being executed.
+type caseRun struct {
+	x       *runner
+	c       Case
+	p       *pair
+	mode    string // full | prefix: what the direct path is given when a batch exceeds the client's limit
+	lastH   uint64 // height of the most recent successful store (direct path)
+	gapH    uint64
+	aborted bool
+	nontriv bool
+	key     strings.Builder
+}
+
+func (x *runner) witness(cr *caseRun, opIdx int, d, p *Obs, extra map[string]any) map[string]any {
+	w := map[string]any{"case": cr.c, "op_index": opIdx, "client_limit_in_force": cr.p.limit, "direct_given": cr.mode}
+	if opIdx >= 0 && opIdx < len(cr.c.Ops) {
+		w["op"] = cr.c.Ops[opIdx]
+	}
+	if d != nil {
+		w["direct"] = *d
+	}
+	if p != nil {
+		w["proxied"] = *p
+	}
+	for k, v := range extra {
+		w[k] = v
+	}
+	return w
+}
+
+func codeName(c uint64) string {
+	names := []string{"Unknown", "Success", "NotFound", "NotIncludedInBlock", "AlreadyInMempool", "TooBig", "ContextDeadline",
+		"Error", "IncorrectAccountSequence", "ContextCanceled", "HeightFromFuture"}
+	if int(c) < len(names) {
+		return fmt.Sprintf("%d(%s)", c, names[c])
+	}
+	return fmt.Sprint(c)
+}
+
+// judge compares the two observations of one call and files the verdict.
+//
+//	backErr  the error a backing returned to the call (for the report; nil if none)
+//	wireErr  the error the backing BEHIND THE PROXY returned, i.e. the one that had to cross the wire; the
+//	         trigger regions of the known findings are defined on it alone (nil if that backing was not
+//	         called or did not fail), so that e.g. a refusal made by the client itself is always judged
+//	         in the clean region
+func (x *runner) judge(cr *caseRun, opIdx int, clause string, d, p Obs, backErr, wireErr error, storedSame bool) {
+	op := cr.c.Ops[opIdx]
+	r := x.r
+	r.Hit(clause)
+	if backErr != nil {
+		r.Hit("error-class-agree")
+	}
+	if op.ctx() != "live" {
+		r.Hit("cancel-agree")
+	}
+	if d.Future || p.Future {
+		r.Hit("future-substring-agree")
+	}
+	region := "clean"
+	if op.Kind == "submit" {
+		if t := errTrigger(wireErr); t != "" {
+			region = t
+		}
+	}
+	df := diff(d, p)
+	if op.NoJudgeCode {
+		region = "not-judged(text equals a sentinel's)"
+		var keep []string
+		for _, f := range df {
+			if f != "Code" {
+				keep = append(keep, f)
+			}
+		}
+		df = keep
+	}
+	if op.Probe && strings.HasPrefix(cr.c.Part, "E-") {
+		call := op.Kind
+		if op.Kind == "retrieve" {
+			call = "GetIDs"
+			if op.GetFail != nil {
+				call = fmt.Sprintf("Get(chunk %d)", op.GetFail.Chunk)
+			}
+		} else {
+			call = "SubmitWithOptions"
+		}
+		what := cr.c.Name
+		row := tableRow{Call: call, Error: what, Direct: d.Code, Proxied: p.Code, Judged: !op.NoJudgeCode, Region: region,
+			Agreeing: d.Code == p.Code, sortKey: cr.c.Part + "|" + fmt.Sprintf("%06d", cr.c.ID)}
+		x.mu.Lock()
+		x.table[row.sortKey] = row
+		x.mu.Unlock()
+	}
+	if region != "clean" {
+		r.Count("trigger_region_calls/"+region, 1)
+	}
+	if len(df) == 0 && storedSame {
+		if region == "T1" || region == "T2" {
+			r.Count("trigger_region_calls_that_agree/"+region, 1)
+		}
+		return
+	}
+	detail := fmt.Sprintf("case %d (%s %s) op %d %s: direct and proxied results differ in %v: direct code=%s count=%d height=%d ids=%d | proxied code=%s count=%d height=%d ids=%d; backing error=%q; proxied message=%q",
+		cr.c.ID, cr.c.Part, cr.c.Name, opIdx, opString(op), df, codeName(d.Code), d.Count, d.Height, len(d.ids), codeName(p.Code), p.Count, p.Height, len(p.ids), errText(backErr), p.Message)
+	if !storedSame {
+		detail += " [the two backings stored different things in this call]"
+	}
+	w := x.witness(cr, opIdx, &d, &p, map[string]any{"backing_error": errText(backErr), "differs_in": df})
+	onlyCode := len(df) == 1 && df[0] == "Code" && storedSame
+	switch {
+	case region == "T1" && onlyCode && identityCodes[coreda.StatusCode(d.Code)] && coreda.StatusCode(p.Code) == coreda.StatusError:
+		x.finding(findingIdentity, clause, fmt.Sprintf("direct %s -> proxied %s", codeName(d.Code), codeName(p.Code)), detail, w)
+	case region == "T2" && onlyCode && coreda.StatusCode(d.Code) == coreda.StatusError && coreda.StatusCode(p.Code) == coreda.StatusContextCanceled:
+		x.finding(findingCanceled, clause, fmt.Sprintf("direct %s -> proxied %s", codeName(d.Code), codeName(p.Code)), detail, w)
+	default:
+		r.Violation(clause, detail, w)
+		cr.aborted = true // the two worlds may have diverged; later calls of this case say nothing
+	}
+}
+
+// finding reports a failure of predicted shape. Every distinct (finding, classes) pair is reported once;
+// repetitions are counted.
+func (x *runner) finding(id, clause, shape, detail string, w map[string]any) {
+	x.r.Count("finding_hits/"+id, 1)
+	x.mu.Lock()
+	k := id + "|" + shape
+	seen := x.reported[k]
+	x.reported[k] = true
+	x.mu.Unlock()
+	if seen && !x.r.IsKnown(id) {
+		return
+	}
+	x.r.Finding(id, clause, detail, w)
+}
+
+func errText(e error) string {
+	if e == nil {
+		return ""
+	}
+	return e.Error()
+}
+
+func opString(o Op) string {
+	switch o.Kind {
+	case "submit":
+		return fmt.Sprintf("submit%v->%s/%s", sizesShort(o.Sizes), o.Out, o.ctx())
+	case "retrieve":
+		s := fmt.Sprintf("retrieve(%s)->%s/%s", o.HSel, o.Out, o.ctx())
+		if o.GetFail != nil {
+			s += fmt.Sprintf(" get#%d->%s", o.GetFail.Chunk, o.GetFail.Out)
+		}
+		return s
+	}
+	return fmt.Sprintf("advance+%d", o.By)
+}
+
+func sizesShort(s []int) string {
+	if len(s) <= 8 {
+		return fmt.Sprint(s)
+	}
+	return fmt.Sprintf("[%d %d %d … %d blobs]", s[0], s[1], s[2], len(s))
+}
+
+// callFailed files a helper call that did not return normally: a panic on the proxied path is a
+// violation (the direct path does not panic on these inputs), anything else is undecidable.
+func (cr *caseRun) callFailed(opIdx int, clause, where string, err error) {
+	var pe *panicError
+	if errors.As(err, &pe) && strings.HasPrefix(where, "proxied") {
+		cr.x.r.Violation(clause, fmt.Sprintf("case %d (%s %s) op %d %s: the %s call panicked: %s", cr.c.ID, cr.c.Part, cr.c.Name, opIdx, opString(cr.c.Ops[opIdx]), where, trunc(pe.msg, 1500)),
+			cr.x.witness(cr, opIdx, nil, nil, map[string]any{"panic": pe.msg}))
+		cr.aborted = true
+		return
+	}
+	cr.inconclusive(opIdx, where+": "+trunc(err.Error(), 400))
+}
+
+func (cr *caseRun) inconclusive(opIdx int, why string) {
+	cr.x.r.Inconclusive(fmt.Sprintf("case %d (%s %s) op %d: %s", cr.c.ID, cr.c.Part, cr.c.Name, opIdx, why))
+	cr.aborted = true
+}
+
+// lastSubmitRec returns the submit record among recs (at most one per helper call).
+func lastSubmitRec(recs []callRec) *callRec {
+	for i := len(recs) - 1; i >= 0; i-- {
+		if recs[i].Kind == "submit" {
+			return &recs[i]
+		}
+	}
+	return nil
+}
+
+func (cr *caseRun) doSubmit(i int, op Op) {
+	x, r, p := cr.x, cr.x.r, cr.p
+	blobs := mkBlobs(cr.c.Seed, i, op.Sizes)
+	tag := fmt.Sprintf("c16/%d/%d", cr.c.ID, i)
+	p.remote.scriptSubmit(tag, op.Out)
+	p.direct.scriptSubmit(tag, op.Out)
+	k, tooBig := refPrefix(op.Sizes, p.limit)
+	sizeClass := "fit"
+	switch {
+	case len(op.Sizes) == 0:
+		sizeClass = "empty"
+	case tooBig:
+		sizeClass = fmt.Sprintf("toobig@%d", min(k, 9))
+	case k < len(op.Sizes):
+		sizeClass = "cut"
+	}
+	fmt.Fprintf(&cr.key, "S%s/%s/%s/n%d;", sizeClass, op.Out, op.ctx(), bucket(len(op.Sizes)))
+	if sizeClass != "fit" || op.Out.Kind != "real" || op.ctx() != "live" {
+		cr.nontriv = true
+	}
+
+	// proxied path
+	r0 := p.remote.logLen()
+	var pres coreda.ResultSubmit
+	if err := runCall(p.remote, op.ctx(), func(ctx context.Context) {
+		pres = types.SubmitWithHelpers(ctx, p.proxied, x.logger, blobs, op.Gas, []byte(tag))
+	}); err != nil {
+		cr.callFailed(i, "submit-agree", "proxied submit", err)
+		return
+	}
+	po := obsSubmit(pres)
+	rrec := lastSubmitRec(p.remote.logFrom(r0))
+
+	// (c) size clause and count clause, on the proxied side alone
+	if op.ctx() == "live" {
+		w := func() map[string]any {
+			ex := map[string]any{"reference_prefix_k": k, "first_unfitting_blob_is_itself_too_big": tooBig}
+			if rrec != nil {
+				ex["backing_received_sizes"] = sizesOf(rrec.Received)
+				ex["backing_stored"] = rrec.Stored
+			} else {
+				ex["backing_received_sizes"] = "not called"
+			}
+			return x.witness(cr, i, nil, &po, ex)
+		}
+		switch {
+		case rrec == nil && len(blobs) > 0 && !tooBig:
+			r.Violation("longest-prefix", fmt.Sprintf("case %d (%s) op %d %s: the first %d blobs fit the client's limit %d but nothing reached the DA layer; result code=%s count=%d",
+				cr.c.ID, cr.c.Name, i, opString(op), k, p.limit, codeName(po.Code), po.Count), w())
+			cr.aborted = true
+			return
+		case rrec == nil && tooBig:
+			r.Hit("too-big")
+			if coreda.StatusCode(po.Code) != coreda.StatusTooBig || po.Count != 0 || len(po.ids) != 0 {
+				r.Violation("too-big", fmt.Sprintf("case %d (%s) op %d %s: blob %d is above the client's limit %d and nothing was sent, but the result is code=%s count=%d ids=%d (want TooBig, 0, none)",
+					cr.c.ID, cr.c.Name, i, opString(op), k, p.limit, codeName(po.Code), po.Count, len(po.ids)), w())
+				cr.aborted = true
+				return
+			}
+		case rrec != nil:
+			if k < len(blobs) {
+				r.Hit("longest-prefix")
+			}
+			if tooBig {
+				r.Hit("too-big")
+			}
+			if !sameList(rrec.Received, blobs[:k]) || (tooBig && k == 0) {
+				r.Violation("longest-prefix", fmt.Sprintf("case %d (%s) op %d %s: client limit %d, the longest fitting prefix is the first %d of %d blobs, but the DA layer received %d blobs of sizes %v",
+					cr.c.ID, cr.c.Name, i, opString(op), p.limit, k, len(blobs), len(rrec.Received), sizesShort(sizesOf(rrec.Received))), w())
+				cr.aborted = true
+				return
+			}
+			if rrec.Tag != tag || rrec.GasPrice != op.Gas {
+				r.Violation("wire-args", fmt.Sprintf("case %d (%s) op %d: options/gas price changed on the way: sent (%q, %v) arrived (%q, %v)",
+					cr.c.ID, cr.c.Name, i, tag, op.Gas, rrec.Tag, rrec.GasPrice), w())
+				cr.aborted = true
+				return
+			}
+			r.Hit("wire-args")
+		}
+		storedN := 0
+		var storedIDs [][]byte
+		if rrec != nil {
+			storedN, storedIDs = rrec.Stored, rrec.IDs
+		}
+		if storedN > 0 || po.Count > 0 {
+			r.Hit("count-is-stored")
+		}
+		bad := po.Count > uint64(storedN)
+		if coreda.StatusCode(po.Code) == coreda.StatusSuccess {
+			bad = bad || po.Count != uint64(storedN) || !sameList(po.ids, storedIDs)
+		}
+		if storedN > 0 && !sameList(rrec.Received[:storedN], blobs[:storedN]) {
+			bad = true
+		}
+		if bad {
+			r.Violation("count-is-stored", fmt.Sprintf("case %d (%s) op %d %s: result code=%s says %d blobs submitted (%d ids) but the DA layer behind the proxy stored %d of the %d given",
+				cr.c.ID, cr.c.Name, i, opString(op), codeName(po.Code), po.Count, len(po.ids), storedN, len(blobs)), w())
+			cr.aborted = true
+			return
+		}
+	}
+
+	// direct path
+	dblobs := blobs
+	if cr.mode == "prefix" {
+		dblobs = blobs[:k]
+	}
+	var do Obs
+	var drec *callRec
+	if cr.mode == "prefix" && tooBig && rrec == nil && op.ctx() == "live" {
+		// nothing was sent: the reference is the statement's "blob too big", checked above; the direct
+		// backing is not called either, so that the two stay in step
+		do = Obs{Code: uint64(coreda.StatusTooBig)}
+	} else {
+		d0 := p.direct.logLen()
+		var dres coreda.ResultSubmit
+		if err := runCall(p.direct, op.ctx(), func(ctx context.Context) {
+			dres = types.SubmitWithHelpers(ctx, p.direct, x.logger, dblobs, op.Gas, []byte(tag))
+		}); err != nil {
+			cr.callFailed(i, "submit-agree", "direct submit", err)
+			return
+		}
+		do = obsSubmit(dres)
+		drec = lastSubmitRec(p.direct.logFrom(d0))
+	}
+	if coreda.StatusCode(do.Code) == coreda.StatusSuccess && do.Count > 0 {
+		cr.lastH = do.Height
+	}
+	var backErr, wireErr error
+	if rrec != nil && rrec.Err != nil {
+		backErr, wireErr = rrec.Err, rrec.Err
+	} else if drec != nil && drec.Err != nil {
+		backErr = drec.Err
+	}
+	storedSame := true
+	if drec != nil || rrec != nil {
+		var ds, rs int
+		var di, ri [][]byte
+		if drec != nil {
+			ds, di = drec.Stored, drec.IDs
+		}
+		if rrec != nil {
+			rs, ri = rrec.Stored, rrec.IDs
+		}
+		storedSame = ds == rs && sameList(di, ri)
+	}
+	x.judge(cr, i, "submit-agree", do, po, backErr, wireErr, storedSame)
+}
+
+func sizesOf(b [][]byte) []int {
+	out := make([]int, len(b))
+	for i := range b {
+		out[i] = len(b[i])
+	}
+	return out
+}
+
+func bucket(n int) int {
+	switch {
+	case n <= 3:
+		return n
+	case n <= 10:
+		return 10
+	case n <= 100:
+		return 100
+	}
+	return 1000
+}
+
+func (cr *caseRun) resolveHeight(op Op) uint64 {
+	cur := cr.p.direct.height()
+	switch op.HSel {
+	case "abs":
+		return op.Height
+	case "last":
+		return cr.lastH
+	case "cur":
+		return cur
+	case "gap":
+		return cr.gapH
+	case "zero":
+		return 0
+	case "future":
+		return cur + 1
+	case "future-far":
+		return cur + 1000
+	case "future-2p53":
+		return 1<<53 + 1
+	case "future-max":
+		return math.MaxUint64
+	}
+	return cur
+}
+
+// calls is the sequence of backing-level calls a helper call caused, in a comparable form.
+func callsKey(recs []callRec) string {
+	var sb strings.Builder
+	for _, c := range recs {
+		fmt.Fprintf(&sb, "%s@%d", c.Kind, c.Height)
+		if c.Kind == "get" {
+			fmt.Fprintf(&sb, "[%d ids", len(c.GetIDs))
+			for _, id := range c.GetIDs {
+				if len(id) >= 16 {
+					sb.WriteString(" " + vk.Hex(id[8:16]))
+				} else {
+					sb.WriteString(" ?" + vk.Hex(id))
+				}
+			}
+			sb.WriteString("]")
+		}
+		sb.WriteString(";")
+	}
+	return sb.String()
+}
+
+func (cr *caseRun) doRetrieve(i int, op Op) {
+	x, r, p := cr.x, cr.x.r, cr.p
+	h := cr.resolveHeight(op)
+	hclass := op.HSel
+	fmt.Fprintf(&cr.key, "R%s/%s/%s", hclass, op.Out, op.ctx())
+	if op.GetFail != nil {
+		fmt.Fprintf(&cr.key, "/get#%d->%s", op.GetFail.Chunk, op.GetFail.Out)
+	}
+	cr.key.WriteString(";")
+	if op.Out.Kind != "real" || op.GetFail != nil || op.ctx() != "live" || (op.HSel != "last" && op.HSel != "cur") {
+		cr.nontriv = true
+	}
+	for _, b := range []*backing{p.remote, p.direct} {
+		if op.Out.Kind != "real" {
+			o := op.Out
+			b.scriptGetIDs(h, &o)
+		}
+		if op.GetFail != nil {
+			b.scriptGetFail(&getFail{Height: h, Chunk: op.GetFail.Chunk, Out: op.GetFail.Out})
+		}
+	}
+	defer func() {
+		for _, b := range []*backing{p.remote, p.direct} {
+			b.scriptGetIDs(h, nil)
+			b.scriptGetFail(nil)
+		}
+	}()
+	r0 := p.remote.logLen()
+	var pres coreda.ResultRetrieve
+	if err := runCall(p.remote, op.ctx(), func(ctx context.Context) {
+		pres = types.RetrieveWithHelpers(ctx, p.proxied, x.logger, h, callerNamespace)
+	}); err != nil {
+		cr.callFailed(i, "retrieve-agree", "proxied retrieve", err)
+		return
+	}
+	rrecs := p.remote.logFrom(r0)
+	d0 := p.direct.logLen()
+	var dres coreda.ResultRetrieve
+	if err := runCall(p.direct, op.ctx(), func(ctx context.Context) {
+		dres = types.RetrieveWithHelpers(ctx, p.direct, x.logger, h, callerNamespace)
+	}); err != nil {
+		cr.callFailed(i, "retrieve-agree", "direct retrieve", err)
+		return
+	}
+	drecs := p.direct.logFrom(d0)
+	do, po := obsRetrieve(dres), obsRetrieve(pres)
+	if coreda.StatusCode(do.Code) == coreda.StatusSuccess && coreda.StatusCode(po.Code) == coreda.StatusSuccess {
+		x.mu.Lock()
+		if do.tsUnix == po.tsUnix {
+			x.tsEqual++
+		} else {
+			x.tsDiff++
+		}
+		x.mu.Unlock()
+	}
+	var backErr error
+	for _, c := range rrecs {
+		if c.Err != nil {
+			backErr = c.Err
+		}
+	}
+	if backErr == nil {
+		for _, c := range drecs {
+			if c.Err != nil {
+				backErr = c.Err
+			}
+		}
+	}
+	// Whether the same backing-level calls reached the DA layer (height, ids and their order) is recorded
+	// as evidence only: the statement speaks about what comes back, and a proxy may e.g. save a round trip.
+	if op.ctx() != "precancel" {
+		if dk, rk := callsKey(drecs), callsKey(rrecs); dk != rk {
+			r.Count("retrieve_backing_call_sequences_differ", 1)
+		} else {
+			r.Count("retrieve_backing_call_sequences_equal", 1)
+		}
+	}
+	x.judge(cr, i, "retrieve-agree", do, po, backErr, nil, true)
+}
+
+func trunc(s string, n int) string {
+	if len(s) > n {
+		return s[:n] + "…"
+	}
+	return s
+}
+
+func (x *runner) runCase(c Case) {
+	r := x.r
+	p, err := newPair(c.Cfg, c.ClientLimit, x.logger)
+	if err != nil {
+		r.Inconclusive(fmt.Sprintf("case %d: world did not start: %v", c.ID, err))
+		return
+	}
+	defer p.close()
+	cr := &caseRun{x: x, c: c, p: p, mode: "prefix"}
+	switch c.BackLimit {
+	case "same":
+		p.direct.cfg.Limit, p.remote.cfg.Limit = p.limit, p.limit
+		cr.mode = "full"
+	case "half":
+		p.direct.cfg.Limit, p.remote.cfg.Limit = max(p.limit/2, 1), max(p.limit/2, 1)
+	}
+	fmt.Fprintf(&cr.key, "%s|L%d|%s|%s/%s|", c.Part, c.ClientLimit, c.BackLimit, c.Cfg.FutureForm, c.Cfg.NotFoundForm)
+	executed := 0
+	for i, op := range c.Ops {
+		if cr.aborted {
+			break
+		}
+		switch op.Kind {
+		case "advance":
+			cr.gapH = p.direct.height() + 1
+			p.direct.advance(op.By)
+			p.remote.advance(op.By)
+			fmt.Fprintf(&cr.key, "A%d;", op.By)
+		case "submit":
+			cr.doSubmit(i, op)
+			executed++
+		case "retrieve":
+			cr.doRetrieve(i, op)
+			executed++
+		}
+	}
+	r.Count("calls_compared", int64(executed))
+	if !cr.aborted {
+		// what the two DA layers hold in the end
+		r.Hit("state-agree")
+		di, ri := p.direct.image(), p.remote.image()
+		same := len(di) == len(ri) && p.direct.height() == p.remote.height()
+		for h, dl := range di {
+			rl := ri[h]
+			if len(dl) != len(rl) {
+				same = false
+				break
+			}
+			for j := range dl {
+				if !bytes.Equal(dl[j].id, rl[j].id) || !bytes.Equal(dl[j].blob, rl[j].blob) {
+					same = false
+				}
+			}
+		}
+		if !same {
+			r.Violation("state-agree", fmt.Sprintf("case %d (%s %s): after the same calls the DA layer behind the proxy holds something else than the one called directly (heights %d vs %d, non-empty heights %d vs %d)",
+				c.ID, c.Part, c.Name, p.direct.height(), p.remote.height(), len(di), len(ri)), x.witness(cr, -1, nil, nil, nil))
+		}
+	}
+	r.Eval(cr.key.String(), cr.nontriv, map[string]any{"part": c.Part, "name": c.Name, "client_limit": p.limit, "back_limit": c.BackLimit, "ops": opsStrings(c.Ops)})
+}
+
+func opsStrings(ops []Op) []string {
+	out := make([]string, len(ops))
+	for i, o := range ops {
+		out[i] = opString(o)
+	}
+	return out
+}
 
 // Run is the check entry point.
 func Run(r *vk.Run) {
-	r.Rule = "not implemented yet"
+	world.Silence()
+	logger := logging.Logger("c16")
+	x := &runner{r: r, logger: logger, table: map[string]tableRow{}, reported: map[string]bool{}}
+
+	r.Rule = "A case is a sequence of node-side calls (types.SubmitWithHelpers / types.RetrieveWithHelpers, harness height advances) made call by call on a " +
+		"scriptable DA layer directly and on an identical one behind the real jsonrpc server+client on loopback. Part E enumerates, in both tiers and completely, " +
+		"every sentinel of core/da and the two context errors x {plain, wrapped, doubly wrapped / sentinel-first, same text without identity, text merely containing the sentinel's} " +
+		"x call kind {SubmitWithOptions, GetIDs, Get chunk 0 and 2}, the error-free forms of 'nothing here', cancellation/deadline before and during a blocked call on each call kind, " +
+		"and heights with blobs / without / zero / from the future (near, far, >2^53, max) — 'exhaustive' refers to this matrix. Part S enumerates blob lists around the client's limit " +
+		"(limits 1, 7, 100, 1000 and the default; sums L-1, L, L+1; oversize blob at each position; empty; zero-length blobs; 1000 small blobs; DA layer with the same, no, or half the limit). " +
+		"Part R draws random sequences of 8-19 calls from all of these. A case is non-trivial when at least one call has a non-accept outcome (scripted error/partial/blocking outcome, dead or dying context, " +
+		"batch not fitting the limit, or a height without blobs / from the future); distinct = part, limits, DA manners and the per-call (kind, size class, outcome, context) sequence."
+	r.Assume("the two backings are instances of one deterministic type (props/c16/backing.go); ids are (height, running number, hash), so equal call sequences give equal ids")
+	r.Assume("the client's size limit is the exported field jsonrpc.API.MaxBlobSize: NewClient sets the package default; small limits are set through the field as in da/jsonrpc/proxy_test.go")
+	r.Assume("the helpers types.SubmitWithHelpers/RetrieveWithHelpers are the observation point on both paths; they are not themselves judged")
+	r.Assume("HTTP transport on 127.0.0.1 (the only one NewClient is used with by the node's commands); websocket transport not exercised")
+
+	// learn the limit NewClient chooses
+	probe, err := newPair(cfgVariants[0], 0, logger)
+	if err != nil {
+		r.Inconclusive("cannot start a jsonrpc server/client pair on loopback: " + err.Error())
+		return
+	}
+	defaultLimit := probe.limit
+	probe.close()
+	r.Set("client_default_limit", defaultLimit)
+
+	var cases []Case
+	cases = append(cases, genEnumerated(r.Rand("enumerated"))...)
+	nEnum := len(cases)
+	cases = append(cases, genSizes(r.Rand("sizes"), defaultLimit, r.Quick())...)
+	nSize := len(cases) - nEnum
+	cases = append(cases, genRandom(r.Rand("random-clean"), r.N(40, 1500), false)...)
+	cases = append(cases, genRandom(r.Rand("random-trigger"), r.N(8, 200), true)...)
+	for i := range cases {
+		cases[i].ID = i
+		// safety net for the rule "a blob the client must refuse is never combined with a scripted
+		// failure or a dead context" (see the reading above): enforce it on whatever was generated
+		lim := cases[i].ClientLimit
+		if lim == 0 {
+			lim = defaultLimit
+		}
+		for j := range cases[i].Ops {
+			op := &cases[i].Ops[j]
+			if op.Kind != "submit" {
+				continue
+			}
+			if _, refused := refPrefix(op.Sizes, lim); (refused || len(op.Sizes) == 0) && (op.Out.Kind != "real" || op.ctx() != "live") {
+				op.Out, op.Ctx = real(), ""
+				r.Count("generated_ops_normalised", 1)
+			}
+		}
+	}
+	if only := os.Getenv("C16_ONLY"); only != "" { // development aid
+		var f []Case
+		for _, c := range cases {
+			if strings.HasPrefix(c.Part, only) {
+				f = append(f, c)
+			}
+		}
+		cases = f
+	}
+	r.Set("cases_enumerated_fault_matrix", nEnum)
+	r.Set("cases_size_limit", nSize)
+	r.Set("cases_random", len(cases)-nEnum-nSize)
+
+	ch := make(chan Case)
+	var wg sync.WaitGroup
+	for w := 0; w < 8; w++ {
+		wg.Add(1)
+		go func() {
+			defer wg.Done()
+			for c := range ch {
+				x.runCase(c)
+			}
+		}()
+	}
+	for _, c := range cases {
+		ch <- c
+	}
+	close(ch)
+	wg.Wait()
+
+	rows := make([]tableRow, 0, len(x.table))
+	for _, row := range x.table {
+		rows = append(rows, row)
+	}
+	sort.Slice(rows, func(i, j int) bool { return rows[i].sortKey < rows[j].sortKey })
+	r.Set("classification_table", rows)
+	r.Set("timestamps_equal_vs_different", []int64{x.tsEqual, x.tsDiff})
+	if os.Getenv("C16_TABLE") != "" {
+		for _, row := range rows {
+			b, _ := json.Marshal(row)
+			fmt.Println("TABLE", string(b))
+		}
+	}
+	r.SetExhaustive(os.Getenv("C16_ONLY") == "")
+
+	for clause, n := range map[string]int64{"submit-agree": 100, "retrieve-agree": 100, "error-class-agree": 100, "cancel-agree": 10,
+		"future-substring-agree": 10, "count-is-stored": 50, "longest-prefix": 30, "too-big": 15, "wire-args": 100, "state-agree": 100} {
+		if os.Getenv("C16_ONLY") == "" {
+			r.Require(clause, n)
+		}
+	}
 }
